@@ -181,6 +181,17 @@ func (g *msgGen) conforming(begin, msgType string) []wf {
 	return fields
 }
 
+// conformingWith: a conforming message that contains the given top-level / component field
+func (g *msgGen) conformingWith(begin, msgType string, force *dd.FieldDef) []wf {
+	fields := []wf{{tag: 8, val: begin, sec: 'h'}, {tag: 35, val: msgType, sec: 'h'}}
+	skipH := map[int]bool{8: true, 9: true, 35: true, 212: true, 213: true}
+	fields = append(fields, g.parts(g.tdd, g.tdd.Header.Parts, 'h', 0, nil, 0, nil, skipH, 0)...)
+	md := g.app.Messages[msgType]
+	fields = append(fields, g.parts(g.app, md.Parts, 'b', 0, nil, 0, force, map[int]bool{212: true, 213: true}, 0)...)
+	fields = append(fields, g.parts(g.tdd, g.tdd.Trailer.Parts, 't', 0, nil, 0, nil, map[int]bool{10: true}, 0)...)
+	return fields
+}
+
 // ---- mutations ----
 
 type mutant struct {
@@ -296,6 +307,13 @@ func (g *msgGen) mutants(fields []wf, msgType string) []mutant {
 			at = lastOf('h')
 		}
 		ms = append(ms, mutant{"invalidtag", t, insert(fields, at, wf{tag: t, val: "v", sec: 'b'})})
+		// the same tag twice: under settings that tolerate it once, the second occurrence is a duplicate
+		gap := insert(fields, at, wf{tag: t, val: "v", sec: 'b'})
+		at2 := at + 1
+		if rng.Intn(2) == 0 && at > 3 {
+			at2 = 3 + rng.Intn(at-3) // not adjacent: somewhere earlier in the message
+		}
+		ms = append(ms, mutant{"dupinvalidtag", t, insert(gap, at2, wf{tag: t, val: "w", sec: 'b'})})
 	}
 	// empty value
 	if i := pick(func(i int) bool { return true }); i >= 0 {
@@ -591,10 +609,19 @@ func genValidate(c *Ctx) {
 		if c.Tier == "thorough" {
 			rounds = 4 // four conforming messages (different optional fields / group sizes) per message type
 		}
+		seenTypes := map[string]bool{}
+		note := func(d *dd.DataDictionary, fs []wf) {
+			for _, f := range fs {
+				if ft, ok := d.FieldTypeByTag[f.tag]; ok {
+					seenTypes[ft.Type] = true
+				}
+			}
+		}
 		for r := 0; r < rounds; r++ {
 			for _, m := range mts {
 				g := &msgGen{c: c, app: m.d, tdd: tdd}
 				conf := g.conforming(beginStringOf(tdd), m.name)
+				note(m.d, conf)
 				subs := []subCase{{Sym("conforming"), randomSettings(c), serialize(conf)}}
 				all := g.mutants(conf, m.name)
 				c.Rng.Shuffle(len(all), func(i, j int) { all[i], all[j] = all[j], all[i] })
@@ -606,6 +633,36 @@ func genValidate(c *Ctx) {
 					subs = append(subs, subCase{L(Sym("mut"), Sym(all[i].kind), Int(all[i].tag)), randomSettings(c), serialize(all[i].fields)})
 				}
 				emitCase(c, pair[0], pair[1], []string{m.name, "~~"}, subs)
+			}
+		}
+		// type coverage: every field type the dictionary uses appears in at least one validated message (a top-level or
+		// component field of that type is forced into a conforming message of a type that has it)
+		for _, m := range mts {
+			md := m.d.Messages[m.name]
+			var tags []int
+			for t := range md.Fields {
+				tags = append(tags, t)
+			}
+			sort.Ints(tags)
+			for _, t := range tags {
+				fd := md.Fields[t]
+				ft, ok := m.d.FieldTypeByTag[t]
+				if !ok || seenTypes[ft.Type] || fd.IsGroup() || t == 212 || t == 213 {
+					continue
+				}
+				g := &msgGen{c: c, app: m.d, tdd: tdd}
+				conf := g.conformingWith(beginStringOf(tdd), m.name, fd)
+				has := false
+				for _, f := range conf {
+					if f.tag == t {
+						has = true
+					}
+				}
+				if !has {
+					continue
+				}
+				note(m.d, conf)
+				emitCase(c, pair[0], pair[1], []string{m.name, "~~"}, []subCase{{L(Sym("typecover"), Str(ft.Type)), randomSettings(c), serialize(conf)}})
 			}
 		}
 	}
